@@ -366,3 +366,32 @@ def obs_C06(g, out):
 
 P.OBS["C05"] = obs_C05
 P.OBS["C06"] = obs_C06
+
+
+def x_hi_face(g, name):
+    """value at the outer x-face (xlow location of x+1) of every cell, from the cell's own region"""
+    t = g.extra["tables"]
+    out = np.full((t["meshnx"], t["meshny"]), np.nan)
+    for r in g.extra["regions"]:
+        a = g.reg["r%d_%s_xlow" % (r["id"], name)]
+        x0, x1, y0, y1 = t["rects"][r["id"]]
+        out[x0:x1, y0:y1] = a[1:, :]
+    return out
+
+
+def obs_C08(g, out):
+    q = 1e-8
+    R0 = float(np.nanmin(g.var("Rxy_corners")))
+    Z0 = float(np.nanmin(g.var("Zxy_corners")))
+    pos = {}
+    for loc in ("corners", "lower_right_corners", "upper_right_corners", "upper_left_corners"):
+        pos[loc] = {"R": Q(g.var("Rxy_" + loc) - R0, q), "Z": Q(g.var("Zxy_" + loc) - Z0, q)}
+    for loc in ("xlow", "ylow"):
+        pos[loc] = {"R": Q(g.loc("Rxy", loc) - R0, q), "Z": Q(g.loc("Zxy", loc) - Z0, q)}
+    pos["yhi"] = {"R": Q(upper_face(g, "Rxy", "ylow") - R0, q), "Z": Q(upper_face(g, "Zxy", "ylow") - Z0, q)}
+    pos["xhi"] = {"R": Q(x_hi_face(g, "Rxy") - R0, q), "Z": Q(x_hi_face(g, "Zxy") - Z0, q)}
+    out["pos"] = pos
+    out["chi_nan"] = {loc: np.isnan(g.loc("chi", loc)).astype(int).tolist() for loc in ("centre", "xlow", "ylow")}
+
+
+P.OBS["C08"] = obs_C08
